@@ -200,7 +200,7 @@ func (p *c01) RunCase(ctx *runner.Ctx) runner.CaseResult {
 	ops := []adapt.Op{}
 	kinds := []string{}
 	dec := [][2]int{}
-	opts := mon.GenOpts{MaxDepth: 2}
+	opts := mon.GenOpts{MaxDepth: 2, NoEmptyLM: true}
 	for i := 0; i < n; i++ {
 		ki := r.Intn(len(keys))
 		k := keys[ki]
@@ -208,20 +208,24 @@ func (p *c01) RunCase(ctx *runner.Ctx) runner.CaseResult {
 		var op adapt.Op
 		switch t {
 		case 0:
-			op = adapt.Op{Kind: adapt.OpPut, Table: spec.Name, Item: mon.Item(r, k, 5, opts)}
+			it := mon.Item(r, k, 5, opts)
+			delete(it, "n")
+			if r.Intn(2) == 0 {
+				it["n"] = val.Num(mon.Pick(r, mon.SmallNumerals))
+			}
+			op = adapt.Op{Kind: adapt.OpPut, Table: spec.Name, Item: it}
 		case 1:
-			op = adapt.Op{Kind: adapt.OpPut, Table: spec.Name, Item: mon.Item(r, k, 1, opts)}
+			it := mon.Item(r, k, 1, opts)
+			delete(it, "n")
+			op = adapt.Op{Kind: adapt.OpPut, Table: spec.Name, Item: it}
 		case 2:
-			op = mon.SetUpdate(spec.Name, k, mon.Pick(r, mon.AttrNames), mon.Value(r, 2, opts))
+			op = mon.SetUpdate(spec.Name, k, mon.Pick(r, mon.AttrNames[:4]), mon.Value(r, 2, opts))
 		case 3:
 			op = mon.RemoveUpdate(spec.Name, k, mon.Pick(r, mon.AttrNames))
 		case 4:
 			op = mon.AddUpdate(spec.Name, k, "n", val.Num(mon.Pick(r, []string{"1", "2", "-1", "10"})))
 		default:
 			op = c01Op(spec, t, k, i)
-		}
-		if t == 4 {
-			// keep "n" numeric in this history so that ADD is well-typed: puts never set n to a non-number
 		}
 		ops = append(ops, op)
 		kinds = append(kinds, fmt.Sprintf("%s%d", c01TemplateNames[t], ki))
